@@ -533,6 +533,7 @@ fn drivers_for(tier: Tier, world: &Arc<World>, first: &Arc<World>) -> Vec<(Drive
             (Driver { label: "3 threads x 1 analysis".into(), world: w(), jobs: vec![t(Mode::B, &["三百xyz"]), t(Mode::C, &["すだちア"]), Job::Sentences { text: "あ。な。な。い".into() }] }, vec![0, 1]),
             (Driver { label: "2 threads x 1 short analysis".into(), world: w(), jobs: vec![t(Mode::A, &["二千xyz"]), t(Mode::C, &["1,0だ"])] }, vec![0, 1, 2]),
             (Driver { label: "2 threads, katakana runs of different length".into(), world: w(), jobs: vec![t(Mode::C, &["アイアイウ"]), t(Mode::C, &["京都に行った"])] }, vec![0, 1, 2]),
+            (Driver { label: "2 threads, katakana and other scripts at the same token positions".into(), world: w(), jobs: vec![t(Mode::C, &["京都にアイ"]), t(Mode::C, &["京都にたアイウ"])] }, vec![0, 1]),
             (Driver { label: "2 threads, first use of a system-only dictionary".into(), world: first.clone(), jobs: vec![t(Mode::C, &["か゛ｳﾞ三"]), t(Mode::A, &["は゜アー"])] }, vec![0, 1, 2]),
             (Driver { label: "3 threads, bracketed readings and different scripts".into(), world: w(), jobs: vec![t(Mode::C, &["京都（きょうと）に"]), t(Mode::C, &["東(ひがし)a1"]), t(Mode::A, &["カタカナ123abc"])] }, vec![0, 1]),
             (Driver { label: "2 threads, different field requests on user-dictionary words".into(), world: w(), jobs: vec![ts(Mode::C, POS_ONLY, &["東京府すだち"]), t(Mode::A, &["東京府すだち"])] }, vec![0, 1, 2]),
@@ -548,6 +549,7 @@ fn drivers_for(tier: Tier, world: &Arc<World>, first: &Arc<World>) -> Vec<(Drive
             (Driver { label: "3 threads x 1 analysis".into(), world: w(), jobs: vec![t(Mode::B, &["二千三百xyz"]), t(Mode::C, &["すだちアイ"]), Job::Sentences { text: "あ。な。な。い！と。".into() }] }, vec![0, 1, 2]),
             (Driver { label: "2 threads, same text".into(), world: w(), jobs: vec![t(Mode::C, &["東京都(とうきょうと)に1,234円xy"]), t(Mode::C, &["東京都(とうきょうと)に1,234円xy"])] }, vec![0, 1, 2]),
             (Driver { label: "2 threads, katakana runs of different length".into(), world: w(), jobs: vec![t(Mode::C, &["アイアイウとカタ"]), t(Mode::C, &["京都に行った"])] }, vec![0, 1, 2]),
+            (Driver { label: "2 threads, katakana and other scripts at the same token positions".into(), world: w(), jobs: vec![t(Mode::C, &["京都にアイ", "京都にた"]), t(Mode::C, &["京都にたアイウ", "京都にアイウ"])] }, vec![0, 1, 2]),
             (Driver { label: "3 threads, first use of a system-only dictionary".into(), world: first.clone(), jobs: vec![t(Mode::C, &["か゛ｳﾞ三"]), t(Mode::A, &["は゜アー"]), t(Mode::B, &["二千(に)"])] }, vec![0, 1, 2]),
             (Driver { label: "3 threads, bracketed readings and different scripts".into(), world: w(), jobs: vec![t(Mode::C, &["京都（きょうと）に行く"]), t(Mode::C, &["東(ひがし)a1"]), t(Mode::A, &["カタカナ123abc"])] }, vec![0, 1, 2]),
             (Driver { label: "3 threads, different field requests on user-dictionary words".into(), world: w(), jobs: vec![ts(Mode::C, POS_ONLY, &["東京府すだち"]), t(Mode::A, &["東京府すだち"]), ts(Mode::B, 0, &["ぴらる都府"])] }, vec![0, 1, 2]),
